@@ -74,6 +74,16 @@ def evaluate(case):
         return [f"{name}: calling the filter twice on the same arrays gives different results"]
     q_ft, rem, qc, cor, ro, go, drem, dcor, dgo = [np.asarray(o, dtype=float) for o in out]
     fails = []
+    # the same array objects, refilled in place with other data, filtered again by the same object: the answer is that of the new data
+    g_new = np.asarray(gr, dtype=float) * 0.7 + 0.3 * np.roll(np.asarray(gr, dtype=float), 1)
+    with np.errstate(all="ignore"):
+        fresh_new = getattr(type(ff)(), name)(r.copy(), g_new.copy(), q.copy(), fq.copy(), cutoff, None if dgr is None else dgr.copy(), None if dfq is None else dfq.copy(), **kw)
+        g1[:] = g_new
+        same_obj_new = getattr(ff, name)(r1, g1, q1, f1, cutoff, dgr, dfq, **kw)
+    if not all(np.array_equal(np.asarray(a), np.asarray(b), equal_nan=True) for a, b in zip(fresh_new, same_obj_new)):
+        fails.append(f"{name}: after the g(r) array was refilled in place with other data, the same filter object returns something else than a "
+                     "new object does for those data (a result of the previous call was reused)")
+        return fails
     t = kw["<b_tot^2>"]
     # for S, F_K, DCS the value at Q=0 is the conventional one (C03): additivity is judged where Q>0
     pos = q > 1e-100 if Y != "F" else np.ones_like(q, dtype=bool)
